@@ -789,4 +789,9 @@ theorem ef_parse (isPrint : Nat → Bool)
   simp only [h1, h2]
   rfl
 
+
+theorem noGroupTables_caps : (noGroupTables E).caps = [0] ∧ (noGroupTables E).captop = 1 := by
+  unfold noGroupTables Env.ord Env.cfg
+  cases E.mco <;> cases E.opts.e <;> cases E.opts.n <;> exact ⟨rfl, rfl⟩
+
 end RegexVerif.Parser
